@@ -106,6 +106,29 @@ class FA:
             out.append(c if lab else negate(c))
         return out
 
+    def cond_parts_at(self, n: int, asserts=True) -> List[Tuple[ast.AST, bool, Term, int]]:
+        """The conjuncts (expression, polarity, normal form, test node) of the branch conditions that hold on every path
+        reaching n: 'if a and b' on its True edge gives a and b, 'if a or b' on its False edge gives not a and not b."""
+        from .sym import negate
+        out = []
+        for t, lab in self.cfg.control_predicates(n):
+            nd = self.cfg.nodes[t]
+            if nd.kind != "test" or (not asserts and isinstance(nd.owner, ast.Assert)):
+                continue
+
+            def parts(e, pol):
+                if isinstance(e, ast.UnaryOp) and isinstance(e.op, ast.Not):
+                    yield from parts(e.operand, not pol)
+                elif isinstance(e, ast.BoolOp) and isinstance(e.op, ast.And if pol else ast.Or):
+                    for v in e.values:
+                        yield from parts(v, pol)
+                else:
+                    yield e, pol
+            for e, pol in parts(nd.ast, lab):
+                c = self.sym.term(e, t)
+                out.append((e, pol, c if pol else negate(c), t))
+        return out
+
     def returns(self) -> List[Tuple[int, Optional[Term]]]:
         """(node, term of the returned value or None for a bare return) of every reachable return."""
         out = []
